@@ -64,7 +64,14 @@ def json_all(case, k) -> bool:
     return bool(k < len(w) and (w[k] or {}).get("all"))
 
 
+def exchanges_of(case):
+    return case["xs"] if "xs" in case else list(case.get("inits") or []) + list(case.get("answers") or [])
+
+
 def expressible(case, carrier) -> bool:
+    if carrier == "http_json" and "ops" in case:
+        w = (case.get("wire") or {}).get("json")
+        return all(not x.get("notifs") and not x.get("after") for x in exchanges_of(case)) or bool(isinstance(w, dict) and w.get("all"))
     if carrier == "http_json":
         return all((not x.get("notifs") and not x.get("after")) or json_all(case, k) for k, x in enumerate(case["xs"]))
     return True
@@ -159,6 +166,16 @@ def expected_transcript(case, sent, calls):
     """the scripted conversation as read-stream entries; `sent[k]` = the k-th request as the CLIENT built
     it (id, method, params — taken from a tap on the write stream, i.e. before any carrier touched it)"""
     out = []
+    if "ops" in case:
+        n_init = n_call = 0
+        for req in sent:
+            x = client_exchange(case, req.get("method"), n_init, n_call)
+            if req.get("method") == "initialize":
+                n_init += 1
+            else:
+                n_call += 1
+            out += [canon_msg(m) for m in messages(x, req)]
+        return out
     # `calls[j]` = the call that wrote the j-th request; a call that fails before writing anything
     # (e.g. a progress token cannot be put into a non-object `_meta`) has no exchange played
     for k, req in zip(calls, sent):
@@ -272,6 +289,7 @@ class Server:
         self.obs = obs
         self.k = 0
         self.busy = 0  # the server works its requests off one after the other
+        self.n_init = self.n_call = 0
 
     def start(self, now, lat):
         return max(now, self.busy) + lat
@@ -285,6 +303,20 @@ class Server:
         self.obs["requests"].append({"method": body.get("method"), "params": body.get("params"), "id": G.idtag(body.get("id"))})
         # the j-th request to arrive was written by the call `sent_calls[j]` (a call that fails before
         # writing anything sends none): the server answers it with that call's exchange
+        if "ops" in self.case:
+            # a client-operations case: the answer depends on the request's method
+            method = body.get("method")
+            x = client_exchange(self.case, method, self.n_init, self.n_call)
+            if method == "initialize":
+                self.n_init += 1
+            else:
+                self.n_call += 1
+            st = self.case.get("style") or {}
+            b, r, a = messages3(x, body)
+            texts = [dumps(st, m) for m in b + [r] + a]
+            self.obs["texts"].append(texts)
+            self.obs["shape"].append([len(b), len(a)])
+            return j, x, texts
         calls = self.obs["sent_calls"]
         if j >= len(calls) or calls[j] >= len(self.case["xs"]):
             self.obs["unscripted"] = self.obs.get("unscripted", 0) + 1
@@ -304,6 +336,8 @@ def wire_of(case, carrier):
 
 
 def nth(lst, k, dflt):
+    if isinstance(lst, dict):
+        return lst  # one choice for every exchange
     return lst[k] if lst is not None and k < len(lst) else dflt
 
 
@@ -396,8 +430,14 @@ async def converse(rd, wr, case, obs, server):
         obs["outcomes"].append(await call_helper(x["call"], tap, wtap, D_s, memo))
         await anyio.sleep(SETTLE_TICKS * vloop.TICK)
         obs["late"] += tap.drain()
-    # whatever is still under way (answers to calls that timed out, messages sent after the last reply)
-    # — wait until the server has received every request that was written and has finished writing
+    await settle_end(tap, obs, server)
+
+
+async def settle_end(tap, obs, server):
+    """whatever is still under way: wait until the server has received every request that was written
+    and has finished writing"""
+    import anyio
+    loop = asyncio.get_running_loop()
     waited = 0
     while (server.k < len(obs["sent"]) or loop.ticks < server.busy) and waited < 20000:
         step = max(server.busy - loop.ticks, 16)
@@ -405,6 +445,209 @@ async def converse(rd, wr, case, obs, server):
         waited += step
     await anyio.sleep(FINAL_SETTLE_TICKS * vloop.TICK)
     obs["late"] += tap.drain()
+
+
+async def drive(ttype, params, case, obs, server):
+    """the conversation over one transport type, reached the way the case says: the `*_client`
+    context manager (`create_client`), the Transport class (`create_transport`), or — for a case of
+    client operations — `MCPClient` / `connect_to_server` over the Transport class"""
+    if "ops" in case:
+        await client_session(ttype, params, case, obs, server)
+    elif case.get("via") == "transport":
+        t = make_transport(ttype, params, obs)
+        async with t:
+            rd, wr = await t.get_streams()
+            await converse(rd, wr, case, obs, server)
+    else:
+        async with make_client(ttype, params, obs) as (rd, wr):
+            await converse(rd, wr, case, obs, server)
+
+
+def make_transport(ttype, params, obs):
+    """`create_transport`; when the factory declares the type unavailable although its module
+    imports (recorded, shown in the evidence as `feat:factory-unavailable:*`), the class itself"""
+    import chuk_mcp.transports as T
+    try:
+        return T.create_transport(ttype, params)
+    except ValueError:
+        obs["factory_unavailable"] = ttype
+        if ttype == "http":
+            from chuk_mcp.transports.http import StreamableHTTPTransport
+            return StreamableHTTPTransport(params)
+        raise
+
+
+def make_client(ttype, params, obs):
+    import chuk_mcp.transports as T
+    try:
+        return T.create_client(ttype, params)
+    except ValueError:
+        obs["factory_unavailable"] = ttype
+        if ttype == "http":
+            from chuk_mcp.transports.http import http_client
+            return http_client(params)
+        raise
+
+
+# ------------------------------------------------------------------------------- MCPClient
+
+OP_METHOD = {"init": "initialize", "list_tools": "tools/list", "call_tool": "tools/call", "list_resources": "resources/list",
+             "read_resource": "resources/read", "list_prompts": "prompts/list", "get_prompt": "prompts/get"}
+DEFAULT_INIT = {"notifs": [], "reply": {"result": {"protocolVersion": "2025-06-18", "capabilities": {}, "serverInfo": {"name": "s", "version": "1"}}}}
+DEFAULT_ANSWER = {
+    "tools/list": {"tools": []}, "tools/call": {"content": [{"type": "text", "text": "ok"}]}, "resources/list": {"resources": []},
+    "resources/read": {"contents": [{"uri": "file:///a", "text": "t"}]}, "prompts/list": {"prompts": []},
+    "prompts/get": {"messages": [{"role": "user", "content": {"type": "text", "text": "t"}}]},
+}
+
+
+BAD_ANSWER = {
+    "tools/list": {"tools": "x"}, "tools/call": {"content": "x"}, "resources/list": {"resources": 5}, "resources/read": {"contents": 5},
+    "prompts/list": {"prompts": 5}, "prompts/get": {"messages": 5},
+}
+
+
+def good_answer(method, t):
+    """a result of the shape the operation's helper accepts, carrying the text `t`"""
+    return {
+        "tools/list": {"tools": [{"name": t, "description": t, "inputSchema": {"type": "object", "properties": {}}}]},
+        "tools/call": {"content": [{"type": "text", "text": t}], "isError": False},
+        "resources/list": {"resources": [{"uri": "file:///x", "name": t}]},
+        "resources/read": {"contents": [{"uri": "file:///a/b.txt", "text": t}]},
+        "prompts/list": {"prompts": [{"name": t, "description": t}]},
+        "prompts/get": {"description": t, "messages": [{"role": "user", "content": {"type": "text", "text": t}}]},
+    }.get(method, {})
+
+
+def client_exchange(case, method, n_init, n_call):
+    """the exchange a client-operations case answers a request with: `initialize` requests take the
+    `inits` in order, every other request the `answers` in order (then plain acceptable answers).
+    An answer says HOW the request is answered ({"kind": "ok"|"bad"|"error", "text", "error", "notifs",
+    "after"}); what a good / malformed result looks like follows from the request's method."""
+    if method == "initialize":
+        return nth(case.get("inits"), n_init, None) or DEFAULT_INIT
+    a = nth(case.get("answers"), n_call, None) or {"kind": "ok", "text": "t"}
+    if a.get("kind") == "error":
+        reply = {"error": a["error"]}
+    elif a.get("kind") == "bad":
+        reply = {"result": BAD_ANSWER.get(method, {"x": 1})}
+    else:
+        reply = {"result": good_answer(method, a.get("text", "t"))}
+    x = {"notifs": a.get("notifs", []), "reply": reply, "lat": a.get("lat", 1), "gap": a.get("gap", 1)}
+    if a.get("after"):
+        x["after"] = a["after"]
+    return x
+
+
+def dump_any(v):
+    if isinstance(v, list):
+        return [dump_any(x) for x in v]
+    if isinstance(v, dict):
+        return {str(k): dump_any(x) for k, x in v.items()}
+    if hasattr(v, "model_dump"):
+        try:
+            return {"$model": type(v).__name__, "dump": jsonable(v.model_dump(by_alias=True, exclude_none=True))}
+        except Exception:  # noqa
+            return {"$model": type(v).__name__}
+    return jsonable(v)
+
+
+async def run_op(client, o):
+    from chuk_mcp.protocol.types.errors import RetryableError, NonRetryableError
+    op = o["op"]
+    try:
+        if op == "init":
+            res = await client.initialize()
+        elif op == "list_tools":
+            res = await client.list_tools()
+        elif op == "call_tool":
+            res = await client.call_tool(o.get("name", "thing"), copy.deepcopy(o.get("arguments")))
+        elif op == "list_resources":
+            res = await client.list_resources()
+        elif op == "read_resource":
+            res = await client.read_resource(o.get("uri", "file:///a/b.txt"))
+        elif op == "list_prompts":
+            res = await client.list_prompts()
+        elif op == "get_prompt":
+            res = await client.get_prompt(o.get("name", "p"), copy.deepcopy(o.get("arguments")))
+        else:
+            raise ValueError(op)
+    except TimeoutError:
+        return {"outcome": "timeout"}
+    except (RetryableError, NonRetryableError) as ex:
+        return {"outcome": "raised", "retryable": isinstance(ex, RetryableError), "code": jsonable(ex.code)}
+    except Exception as ex:  # noqa
+        return {"outcome": "exception", "exc": type(ex).__name__}
+    return {"outcome": "returned", "value": dump_any(res)}
+
+
+class Tapped:
+    """while active, the Transport class hands tapped streams to whoever asks (`MCPClient.initialize`)
+    and its `set_protocol_version` calls are recorded"""
+
+    def __init__(self, cls, obs):
+        self.cls, self.obs = cls, obs
+        self.tap = self.wtap = None
+
+    def __enter__(self):
+        cls, me = self.cls, self
+        self.orig_get, self.orig_set = cls.get_streams, cls.set_protocol_version
+
+        async def get_streams(this):
+            rd, wr = await me.orig_get(this)
+            if me.tap is None:
+                me.tap = Tap(rd, me.obs["transcript"])
+                me.wtap = WriteTap(wr, me.obs["ids"], me.obs["sent"], me.obs["sent_calls"])
+            return me.tap, me.wtap
+
+        def set_protocol_version(this, version):
+            me.obs["set_version"].append(jsonable(version))
+            return me.orig_set(this, version)
+
+        cls.get_streams, cls.set_protocol_version = get_streams, set_protocol_version
+        return self
+
+    def __exit__(self, *exc):
+        self.cls.get_streams, self.cls.set_protocol_version = self.orig_get, self.orig_set
+        return False
+
+
+async def client_session(ttype, params, case, obs, server):
+    import anyio
+    from chuk_mcp.client.client import MCPClient
+    from chuk_mcp.client.connection import connect_to_server
+
+    obs["set_version"] = []
+    transport = make_transport(ttype, params, obs)
+    with Tapped(type(transport), obs) as tp:
+        async def ops(client):
+            for i, o in enumerate(case["ops"]):
+                if tp.wtap is not None:
+                    tp.wtap.current = i
+                obs["outcomes"].append(await run_op(client, o))
+                await anyio.sleep(SETTLE_TICKS * vloop.TICK)
+                if tp.tap is not None:
+                    obs["late"] += tp.tap.drain()
+            obs["client_initialized"] = bool(client.initialized)
+            if tp.tap is not None:
+                await settle_end(tp.tap, obs, server)
+
+        if case.get("connect"):
+            entered = False
+            try:
+                # stdio: `connect_to_server` builds the transport from the parameters itself
+                async with connect_to_server(params if (ttype == "stdio" and case.get("connect") == "params") else transport) as client:
+                    entered = True
+                    obs["connected"] = True
+                    await ops(client)
+            except Exception as ex:  # noqa
+                if entered:
+                    raise
+                obs["connected"] = False
+                obs["connect_exc"] = type(ex).__name__
+        else:
+            async with transport:
+                await ops(MCPClient(transport))
 
 
 def cut_local(block: bytes, cuts):
@@ -457,7 +700,7 @@ async def run_stdio(case, obs):
                 sent["bytes"] += p
                 sent["pos"] += len(p)
                 sent["cuts"].append(sent["pos"])
-            if w.get("eof") and k == len(case["xs"]) - 1:
+            if w.get("eof") and "xs" in case and k == len(case["xs"]) - 1:
                 # the child closes its stdout after its last message and keeps running
                 loop.at(t0 + len(pieces) * gap, lambda: out.push(None))
 
@@ -493,8 +736,7 @@ async def run_stdio(case, obs):
     saved = stdio_h._patched(mod, holder)
     try:
         from chuk_mcp.transports.stdio.parameters import StdioParameters
-        async with mod.stdio_client(StdioParameters(command="verif-fake-child", args=[])) as (rd, wr):
-            await converse(rd, wr, case, obs, server)
+        await drive("stdio", StdioParameters(command="verif-fake-child", args=[]), case, obs, server)
     finally:
         stdio_h._restore(saved)
         obs["wire"] = {"crlf": sent["crlf"], "cuts": sent["cuts"][:-1] if sent["cuts"] else [], "hex": sent["bytes"].hex()}
@@ -556,9 +798,9 @@ async def run_http(case, obs, form):
         return httpx.Response(c.get("status", 200), headers=headers, content=raw)
 
     with http_h._MockPatch(handler):
-        params = StreamableHTTPParameters(url=http_h.URL, timeout=TRANSPORT_TIMEOUT_S)
-        async with http_client(params) as (rd, wr):
-            await converse(rd, wr, case, obs, server)
+        from chuk_mcp.transports.http.http_client import create_http_parameters_from_url
+        params = create_http_parameters_from_url(http_h.URL, timeout=TRANSPORT_TIMEOUT_S)
+        await drive("http", params, case, obs, server)
 
 
 # ------------------------------------------------------------------------------- legacy SSE
@@ -644,7 +886,7 @@ async def run_sse(case, obs):
             ends.append(len(block))
         lat = max(x.get("lat", 2), 2)
         now = max(loop.ticks, server.busy)
-        last = k == len(case["xs"]) - 1
+        last = "xs" in case and k == len(case["xs"]) - 1
 
         def schedule(pieces, t0):
             for j, p in enumerate(pieces):
@@ -679,9 +921,9 @@ async def run_sse(case, obs):
 
     try:
         with http_h._MockPatch(handler):
-            params = SSEParameters(url="http://verif.test", timeout=TRANSPORT_TIMEOUT_S)
-            async with sse_client(params) as (rd, wr):
-                await converse(rd, wr, case, obs, server)
+            from chuk_mcp.transports.sse.sse_client import create_sse_parameters_from_url
+            params = create_sse_parameters_from_url("http://verif.test", timeout=TRANSPORT_TIMEOUT_S)
+            await drive("sse", params, case, obs, server)
     finally:
         # chunk boundaries in characters (what `aiter_text` hands over piece by piece)
         cuts = [len(sent["bytes"][:c].decode("utf-8", errors="ignore")) for c in sent["cuts"][:-1]]
